@@ -217,31 +217,107 @@ example : eval numP 0 [] (.bin .pow (.lit 2) (.lit (-1))) = ([], .err .negExp) :
 
 /-! ## 3. assignment -/
 
-/-- **`lv op= e` is `lv = lv op e`** — for every operator, every lvalue (array elements included) and
-every right-hand side, value and final environment alike. -/
+/-- resolving a target whose subscript is already a literal is pure -/
+theorem resolve_toTarget (P : Str → Option Expr) (d : Nat) (env : Env) (rt : RT) :
+    resolve P d env rt.toTarget = (env, .ok rt) := by
+  cases rt with
+  | var n => simp only [RT.toTarget]; rw [resolve]
+  | elem n i => simp only [RT.toTarget]; rw [resolve, eval]
+
+/-- **`lv op= e` is `lv = lv op e` with the subscript of `lv` evaluated once** — for every operator,
+every lvalue (array elements included) and every right-hand side, value and final environment alike. -/
 theorem opassign_is_assign_of_binop (P : Str → Option Expr) (d : Nat) (env : Env) (op : BinOp) (t : Target) (r : Expr) :
-    eval P d env (.opAssign op t r) = eval P d env (.assign t (.bin op (.ref t) r)) := by
-  rw [eval.eq_def P d env (.opAssign op t r), eval.eq_def P d env (.assign t (.bin op (.ref t) r))]
+    eval P d env (.opAssign op t r) =
+      (match resolve P d env t with
+       | (env0, .ok rt) => eval P d env0 (.assign rt.toTarget (.bin op (.ref rt.toTarget) r))
+       | (env0, .error er) => (env0, .err er)) := by
+  rw [eval.eq_def P d env (.opAssign op t r)]
   simp only
-  rw [eval.eq_def P d env (.bin op (.ref t) r)]
-  simp only
-  rw [eval.eq_def P d env (.ref t)]
-  simp only
-  rcases hd : deref P d env t with ⟨env1, ra⟩
-  cases ra with
-  | err e => rfl
-  | ok a =>
+  rcases hres : resolve P d env t with ⟨env0, rr⟩
+  cases rr with
+  | error er => rfl
+  | ok rt =>
     simp only
-    cases hs : shortCut op a with
-    | some v => rfl
-    | none =>
+    rw [eval.eq_def P d env0 (.assign rt.toTarget (.bin op (.ref rt.toTarget) r))]
+    simp only
+    rw [eval.eq_def P d env0 (.bin op (.ref rt.toTarget) r)]
+    simp only
+    rw [eval.eq_def P d env0 (.ref rt.toTarget)]
+    simp only [resolve_toTarget]
+    rcases hd : derefR P d env0 rt with ⟨env1, ra⟩
+    cases ra with
+    | err e => rfl
+    | ok a =>
       simp only
-      rcases hr : eval P d env1 r with ⟨env2, rb⟩
-      cases rb with
-      | err e => rfl
-      | ok b =>
+      cases hs : shortCut op a with
+      | some v => rfl
+      | none =>
         simp only
-        cases applyBin op a b <;> rfl
+        rcases hr : eval P d env1 r with ⟨env2, rb⟩
+        cases rb with
+        | err e => rfl
+        | ok b =>
+          simp only
+          cases applyBin op a b <;> rfl
+
+/-- for a plain variable this is literally `x = x op e` -/
+theorem opassign_var_is_assign_of_binop (P : Str → Option Expr) (d : Nat) (env : Env) (op : BinOp) (n : Str) (r : Expr) :
+    eval P d env (.opAssign op (.var n) r) = eval P d env (.assign (.var n) (.bin op (.ref (.var n)) r)) := by
+  rw [opassign_is_assign_of_binop, resolve]; rfl
+
+example : eval numP 0 [] (.opAssign .add (.var ['x']) (.lit 5)) =
+    eval numP 0 [] (.assign (.var ['x']) (.bin .add (.ref (.var ['x'])) (.lit 5))) :=
+  opassign_var_is_assign_of_binop numP 0 [] .add _ _
+
+/-- bash: `name[idx] op= r` evaluates the subscript once and reads and writes that one element. -/
+def opAssignElemOnce (P : Str → Option Expr) (d : Nat) (env : Env) (op : BinOp) (n : Str) (idx r : Expr) : Env × Res :=
+  match eval P d env idx with
+  | (env1, .ok i) => eval P d env1 (.opAssign op (.elem n (.lit i)) r)
+  | q => q
+
+/-- **Compound assignment to an array element evaluates its subscript exactly once**
+(`A[i++] += v` increments `i` once and reads and writes the same element). -/
+theorem subscript_evaluated_once (P : Str → Option Expr) (d : Nat) (env : Env) (op : BinOp) (n : Str) (idx r : Expr) :
+    eval P d env (.opAssign op (.elem n idx) r) = opAssignElemOnce P d env op n idx r := by
+  unfold opAssignElemOnce
+  rw [eval.eq_def P d env (.opAssign op (.elem n idx) r)]
+  simp only
+  rw [resolve]
+  rcases hi : eval P d env idx with ⟨env1, ri⟩
+  cases ri with
+  | err e => rfl
+  | ok i =>
+    simp only
+    rw [eval.eq_def P d env1 (.opAssign op (.elem n (.lit i)) r)]
+    simp only
+    rw [show resolve P d env1 (.elem n (.lit i)) = (env1, .ok (.elem n i)) from resolve_toTarget P d env1 (.elem n i)]
+
+/-- … and so do `++`/`--` on an array element. -/
+theorem incdec_subscript_evaluated_once (P : Str → Option Expr) (d : Nat) (env : Env) (op : IncOp) (n : Str) (idx : Expr) :
+    eval P d env (.incDec op (.elem n idx)) =
+      (match eval P d env idx with
+       | (env1, .ok i) => eval P d env1 (.incDec op (.elem n (.lit i)))
+       | q => q) := by
+  rw [eval.eq_def P d env (.incDec op (.elem n idx))]
+  simp only
+  rw [resolve]
+  rcases hi : eval P d env idx with ⟨env1, ri⟩
+  cases ri with
+  | err e => rfl
+  | ok i =>
+    simp only
+    rw [eval.eq_def P d env1 (.incDec op (.elem n (.lit i)))]
+    simp only
+    rw [show resolve P d env1 (.elem n (.lit i)) = (env1, .ok (.elem n i)) from resolve_toTarget P d env1 (.elem n i)]
+
+/-- `A[x++] += 5` with `x=0`: `x` ends as 1 and the write goes to `A[0]` (as in bash). -/
+example : eval numP 0 [(['x'], .scalar ['0'])] (.opAssign .add (.elem ['A'] (.incDec .postInc (.var ['x']))) (.lit 5)) =
+    ([(['x'], .scalar ['1']), (['A'], .arr [(0, ['5'])])], .ok 5) := by
+  have h1 : eval numP 0 [(['x'], .scalar ['0'])] (.incDec .postInc (.var ['x'])) = ([(['x'], .scalar ['1'])], .ok 0) := by
+    simp only [eval, resolve, derefR, derefStr, assignR]; decide
+  rw [subscript_evaluated_once]; unfold opAssignElemOnce; rw [h1]
+  simp only [eval, resolve, derefR, derefStr, assignR, shortCut]
+  decide
 
 /-- **A variable assigned by `=` ends with the assigned value**, which is also the value of the
 expression; no other variable changes. -/
@@ -251,14 +327,10 @@ theorem assign_var_stores_value (P : Str → Option Expr) (d : Nat) (env env1 : 
     varStr (setVar env1 n v) n = showInt v ∧
     ∀ m, m ≠ n → varStr (setVar env1 n v) m = varStr env1 m := by
   refine ⟨?_, varStr_setVar_same _ _ _, fun m hm => varStr_setVar_other _ _ _ _ hm⟩
-  rw [eval, h]; simp only; rw [assignT]
+  rw [eval, h]; simp only; rw [resolve]; rfl
 
 example : eval numP 0 [] (.assign (.var ['x']) (.lit 5)) = (setVar [] ['x'] 5, .ok 5) :=
   (assign_var_stores_value numP 0 [] [] ['x'] _ 5 (evalLit _ _ _)).1
-
-example : eval numP 0 [] (.opAssign .add (.var ['x']) (.lit 5)) =
-    eval numP 0 [] (.assign (.var ['x']) (.bin .add (.ref (.var ['x'])) (.lit 5))) :=
-  opassign_is_assign_of_binop numP 0 [] .add _ _
 
 /-- **`++`/`--`**: the prefix forms yield the new value, the postfix forms the old one, and the
 variable ends with old ± 1 (wrapping) in all four. -/
@@ -267,12 +339,15 @@ theorem incdec_values (P : Str → Option Expr) (d : Nat) (env env1 : Env) (op :
     eval P d env (.incDec op (.var n)) = (setVar env1 n (incNew op v), .ok (incRet op v)) ∧
     varStr (setVar env1 n (incNew op v)) n = showInt (incNew op v) := by
   refine ⟨?_, varStr_setVar_same _ _ _⟩
-  rw [eval, h]; simp only; rw [assignT]
+  unfold deref at h
+  rw [resolve] at h
+  simp only at h
+  rw [eval, resolve]; simp only; rw [h]; rfl
 
 example : incNew .postInc Int64.maxValue = Int64.minValue ∧ incRet .postInc Int64.maxValue = Int64.maxValue := by decide
 
 private theorem derefX41 : deref numP 0 [(['x'], .scalar ['4', '1'])] (.var ['x']) = ([(['x'], .scalar ['4', '1'])], .ok 41) := by
-  rw [deref, derefStr]; decide
+  unfold deref; rw [resolve]; simp only; rw [derefR, derefStr]; decide
 
 example : eval numP 0 [(['x'], .scalar ['4', '1'])] (.incDec .postInc (.var ['x'])) =
     (setVar [(['x'], .scalar ['4', '1'])] ['x'] 42, .ok 41) :=
@@ -380,45 +455,38 @@ theorem radix_literal_wraps (radix : Nat) (ds : Str) :
 example : parseShellLiteral "8000000000000000".toList 16 = some Int64.minValue := by decide
 
 
-/-- Full statement (bash): a hexadecimal literal denotes the value of its digits modulo 2^64. -/
-def hex_literal_wraps_full : Prop :=
-  ∀ ds : Str, ds ≠ [] → (∀ c ∈ ds, isHexDigit c = true) →
-    parseLiteral ('0' :: 'x' :: ds) = some (Int64.ofNat (digitsVal 16 ds hexDigitVal), [])
-
-/-- `0x8000000000000000`: brush's `i64::from_str_radix` overflows, the hex alternative fails and the
-octal alternative reads just `0` (the whole expression is then a parse error); bash gives `i64::MIN`. -/
-theorem hex_literal_wraps_cex : ¬ hex_literal_wraps_full := by
-  intro h
-  have := h "8000000000000000".toList (by decide) (by decide)
-  revert this
-  decide
-
-/-- Guarded version: every hexadecimal literal below 2^63 has the value of its digits. -/
-theorem hex_literal_wraps_partial (ds : Str) (hne : ds ≠ []) (hhex : ∀ c ∈ ds, isHexDigit c = true)
-    (guard : digitsVal 16 ds hexDigitVal ≤ i64Max) :
-    parseLiteral ('0' :: 'x' :: ds) = some (Int64.ofNat (digitsVal 16 ds hexDigitVal), []) := by
+/-- **Hexadecimal literals wrap like bash, and a bare `0x` is 0**: for every string of hexadecimal
+digits (of any length, the empty one included) the literal is the base-16 value of the digits reduced
+modulo 2^64 — the same accumulation as `base#digits` (`radix_literal_wraps`), never an overflow failure. -/
+theorem hex_literal_wraps (ds : Str) (hhex : ∀ c ∈ ds, isHexDigit c = true) :
+    ∃ v, radixNat (radixDigit 16) 16 ds 0 = some v ∧
+      parseLiteral ('0' :: 'x' :: ds) = some (Int64.ofNat v, []) := by
+  obtain ⟨v, hv⟩ := radixNat_hex_some ds hhex 0
+  refine ⟨v, hv, ?_⟩
   have ht : ds.takeWhile isHexDigit = ds := takeWhile_all _ _ hhex
   have hd : ds.dropWhile isHexDigit = [] := dropWhile_all _ _ hhex
-  have he : ds.isEmpty = false := by cases ds <;> simp_all
-  have hg : ¬ digitsVal 16 ds hexDigitVal > i64Max := by omega
   have hdec : parseDecimal ('0' :: 'x' :: ds) = none := by
     simp [parseDecimal]
-  simp [parseLiteral, hdec, ht, hd, he, hg]
+  have hr : parseShellLiteral ds 16 = some (Int64.ofNat v) := by
+    rw [radix_literal_wraps 16 ds, hv]; simp
+  simp [parseLiteral, hdec, ht, hd, hr]
 
-example : parseLiteral "0x7fffffffffffffff".toList = some (Int64.maxValue, []) := by decide
+example : parseLiteral "0x8000000000000000".toList = some (Int64.minValue, []) := by decide
+example : parseLiteral "0xFFFFFFFFFFFFFFFF".toList = some (-1, []) := by decide
+example : parseLiteral "0x".toList = some (0, []) := by decide
+example : parseLiteral "18446744073709551616".toList = some (0, []) := by decide
+example : parseLiteral "01000000000000000000000".toList = some (Int64.minValue, []) := by decide
+example : parseLiteral "08".toList = none := by decide
 
 /-! ## 7. recorded divergences from bash (each a known-finding clause of the check) -/
 
-/-- Full statement (bash): an expression consisting only of blanks is 0. -/
-def blank_is_zero_full : Prop := ∀ s : Str, (∀ c ∈ s, isWs c = true) → parse arithLevels s = some (.lit 0)
+/-- **An expression consisting only of blanks is 0** (so are blank variable contents), whatever the
+operator table. -/
+theorem blank_is_zero (tb : Table) (s : Str) (h : ∀ c ∈ s, isWs c = true) : parse tb s = some (.lit 0) := by
+  unfold parse skipWs
+  rw [dropWhile_all _ _ h]; rfl
 
-/-- `$(( ))` with a single blank is a parse error in brush (only the empty string is accepted, by
-the grammar's `![_]` alternative, so no non-trivial guard exists). -/
-theorem blank_is_zero_cex : ¬ blank_is_zero_full := by
-  intro h
-  have := h [' '] (by decide)
-  revert this
-  decide
+example : parse arithLevels " \t ".toList = some (.lit 0) := blank_is_zero _ _ (by decide)
 
 /-- `--1` / `++1` are parse errors (bash: two unary signs), while the spaced form is accepted. -/
 theorem double_sign_cex :
@@ -430,50 +498,9 @@ theorem double_sign_cex :
 theorem assignment_as_operand_cex :
     parse arithLevels "1+x=5".toList = some (.bin .add (.lit 1) (.assign (.var ['x']) (.lit 5))) := by decide
 
-/-- A blank next to a subscript bracket is rejected (`lvalue()` has no `_` inside the brackets). -/
-theorem subscript_blank_cex :
-    parse arithLevels "A[ 1]".toList = none ∧
-    parse arithLevels "A[1]".toList = some (.ref (.elem ['A'] (.lit 1))) := by decide
-
-
-/-- bash: `name[idx] op= r` evaluates the subscript once and reads and writes that one element. -/
-def opAssignElemOnce (P : Str → Option Expr) (d : Nat) (env : Env) (op : BinOp) (n : Str) (idx r : Expr) : Env × Res :=
-  match eval P d env idx with
-  | (env1, .ok i) => eval P d env1 (.opAssign op (.elem n (.lit i)) r)
-  | q => q
-
-/-- Full statement: compound assignment to an array element evaluates its subscript once. -/
-def subscript_once_full : Prop :=
-  ∀ (P : Str → Option Expr) (d : Nat) (env : Env) (op : BinOp) (n : Str) (idx r : Expr),
-    eval P d env (.opAssign op (.elem n idx) r) = opAssignElemOnce P d env op n idx r
-
-
-/-- `A[x++] += 5` with `x=0`: brush's `BinaryAssignment` evaluates the subscript in `deref_lvalue`
-and again in `assign`, so `x` ends as 2 and the write goes to `A[1]` (bash: `x=1`, `A[0]=5`). -/
-theorem subscript_once_cex : ¬ subscript_once_full := by
-  intro h
-  have := h numP 0 [(['x'], .scalar ['0'])] .add ['A'] (.incDec .postInc (.var ['x'])) (.lit 5)
-  simp only [opAssignElemOnce, eval, deref, derefStr, assignT, shortCut] at this
-  revert this
-  decide
-
-/-- Guarded version: when evaluating the subscript is pure (same value `i`, environment untouched,
-in every environment — e.g. a constant expression), the subscript may as well be evaluated once. -/
-theorem subscript_once_partial (P : Str → Option Expr) (d : Nat) (env : Env) (op : BinOp) (n : Str) (idx r : Expr)
-    (i : Int64) (guard : ∀ env', eval P d env' idx = (env', .ok i)) :
-    eval P d env (.opAssign op (.elem n idx) r) = opAssignElemOnce P d env op n idx r := by
-  have hlit : ∀ env', eval P d env' (.lit i) = (env', .ok i) := fun env' => by rw [eval]
-  have hderef : ∀ env', deref P d env' (.elem n idx) = deref P d env' (.elem n (.lit i)) := by
-    intro env'; rw [deref, deref, guard, hlit]
-  have hassign : ∀ env' v, assignT P d env' (.elem n idx) v = assignT P d env' (.elem n (.lit i)) v := by
-    intro env' v; rw [assignT, assignT, guard, hlit]
-  unfold opAssignElemOnce
-  rw [guard]
-  simp only
-  rw [eval.eq_def P d env (.opAssign op (.elem n idx) r), eval.eq_def P d env (.opAssign op (.elem n (.lit i)) r)]
-  simp only [hderef, hassign]
-
-example : ∀ env', eval numP 0 env' (.bin .add (.lit 1) (.lit 1)) = (env', .ok 2) := by
-  intro env'; simp [eval, shortCut, applyBin]
+/-- Blanks next to a subscript's brackets are accepted (`A[ 1 ]` is `A[1]`). -/
+theorem subscript_blank_accepted :
+    parse arithLevels "A[ 1 ]".toList = some (.ref (.elem ['A'] (.lit 1))) ∧
+    parse arithLevels "A[1\t]=5".toList = some (.assign (.elem ['A'] (.lit 1)) (.lit 5)) := by decide
 
 end BrushVerif.C07
